@@ -280,6 +280,21 @@ pub fn check(case: &Case, known: &Known, mode: Mode, hazard: bool) -> Outcome {
             return o;
         }
         if mode == Mode::C05 {
+            if let Some(e) = bound.errors.iter().find(|e| e.starts_with("set operation between")) {
+                // the result of a set operation whose branches differ in arity has no well-defined
+                // column list: a column of the frame was dropped from (or added to) one branch
+                let o = attribute(
+                    dn,
+                    &format!("under {dn} the branches of a set operation differ in their number of columns"),
+                    &format!("no such column {e}"),
+                    json!({"source": src, "dialect": dn, "sql": sql, "binder": bound.errors}),
+                );
+                if matches!(o.verdict, Verdict::Known(..)) {
+                    out.verdict = o.verdict;
+                    continue;
+                }
+                return o;
+            }
             if !bound.errors.is_empty() {
                 continue;
             }
@@ -424,7 +439,7 @@ pub fn replay_any(check_name: &str, case: &Value, known: &Known, mode: Mode) -> 
     Some(check(&c, known, mode, check_name.starts_with("hazard/")))
 }
 
-const HAZ_C07: &[&str] = &["dup_names", "sorted_let", "const_group_key", "win_over_win", "dropped_key_join", "wild_let", "take_far_from_sort", "sort_by_windowed", "append_free", "group_take_sort_agg", "multi_take_agg", "open_take", "wild_dup_join"];
+const HAZ_C07: &[&str] = &["dup_names", "sorted_let", "const_group_key", "win_over_win", "dropped_key_join", "wild_let", "take_far_from_sort", "sort_by_windowed", "append_free", "group_take_sort_agg", "multi_take_agg", "open_take", "wild_dup_join", "computed_key_join"];
 const HAZ_C05: &[&str] = &["dup_names", "dup_select", "shadow", "wild_helpers", "const_fold", "wild_except_twice", "wild_except_sorted"];
 
 pub fn run_c07(ctx: &Ctx) -> i32 {
